@@ -54,4 +54,23 @@ theorem command_config_independent (f : Rec → List Rec) (fmt : Rec → Command
   rw [command_deterministic f fmt v₁ n₁ ks₁ hp₁ a₁ h₁ w₁ hw₁,
       command_deterministic f fmt v₂ n₂ ks₂ hp₂ a₂ h₂ w₂ hw₂, hin]
 
+/-- one batch's contribution commutes with any other batch's -/
+theorem count_batch_comm (cnt : Rec → Nat × Nat × Nat) (acc : Nat × Nat × Nat) (l : List Rec) :
+    l.foldl (fun a r => (a.1 + (cnt r).1, a.2.1 + (cnt r).2.1, a.2.2 + (cnt r).2.2)) acc
+      = (acc.1 + (l.map fun r => (cnt r).1).sum, acc.2.1 + (l.map fun r => (cnt r).2.1).sum,
+         acc.2.2 + (l.map fun r => (cnt r).2.2).sum) := by
+  induction l generalizing acc with
+  | nil => simp
+  | cons r t ih => rw [List.foldl_cons, ih]; simp [Nat.add_assoc]
+
+/-- the counters of an aggregating command (obicount) do not depend on the order in which the batches
+arrive -/
+theorem count_perm (cnt : Rec → Nat × Nat × Nat) (a b : List Batch) (h : a.Perm b) :
+    countOutput cnt a = countOutput cnt b := by
+  unfold countOutput
+  apply List.Perm.foldl_eq' h
+  intro x _ y _ z
+  simp only [count_batch_comm]
+  ext <;> simp <;> omega
+
 end ObiVerif.Props.C05
